@@ -45,7 +45,9 @@ def normalize(expression: exp.Expr, dnf: bool = False, max_distance: int = 128) 
                 logger.info(
                     f"Skipping normalization because distance {distance} exceeds max {max_distance}"
                 )
-                return expression
+                # Undo the BETWEEN rewrite above, the input has to come back unchanged
+                node.replace(original)
+                return original if root else expression
 
             try:
                 node = node.replace(
